@@ -371,6 +371,7 @@ def check_recursion_shape(ctx: Check, tree: Tree) -> None:
 
 def run(ctx: Check, tree: Tree) -> None:
     ctx.decided += [
+        'R-FRAME (own pool): the pool handed to the recursion is the one boosted in the same activation, on every path',
         "R-PROV over every producer merged by HelicityAdapter.create_expressions: key identity reaches the value (names are a function of final-state ids only, so equal names then carry equal quantities across topologies)",
         "R-TERM: InvariantMass = ComplexSqrt(E^2 - |p|^2), Phi = atan2(p_y, p_x), Theta = acos(p_z/|p|), component slices 0,1,2,3,1:, norms; mass symbol naming and the mass store",
     ]
